@@ -486,7 +486,10 @@ type cbStepChooser func(r *rand.Rand, m *cbModel, inflight []int, now time.Time,
 // cbRun executes up to nsteps. The FIRST mismatch between model and breaker ends the run and is returned
 // (the caller decides whether its category belongs to the property being checked); ambiguous steps
 // resynchronise the model from the observed state and continue.
-func cbRun(r *rand.Rand, cfg cbConfig, nsteps int, choose cbStepChooser) (cbRunStats, []string, *cbMismatch, error) {
+// belongs tells which mismatches refute the property being decided: one of those ends the run; a mismatch that is another
+// property's concern is remembered (returned if nothing else is found), the model is re-synchronised with the observed
+// state and the run goes on, so that a deviation of the other kind does not hide a later one of this kind.
+func cbRun(r *rand.Rand, cfg cbConfig, nsteps int, choose cbStepChooser, belongs func(*cbMismatch) bool) (cbRunStats, []string, *cbMismatch, error) {
 	var st cbRunStats
 	start := baseTime.Add(time.Duration(r.Int64N(int64(time.Hour)))).Add(time.Duration(r.Int64N(1e9)))
 	freeze(start)
@@ -503,7 +506,9 @@ func cbRun(r *rand.Rand, cfg cbConfig, nsteps int, choose cbStepChooser) (cbRunS
 	statuses := []int{0, 200, 200, 201, 404, 500, 500, 502, 503, 504}
 	legalArrival := map[string]map[string]bool{
 		"standby":    {"standby": true},
-		"tripped":    {"tripped": true, "recovering": true, "standby": true}, // tripped->recovering->standby may happen within one arrival
+		// the recovery period starts at the arrival that ends the tripped state and every configuration here has a recovery
+		// duration > 0, so one arrival can never take the breaker from tripped to standby
+		"tripped":    {"tripped": true, "recovering": true, "standby": cfg.Recovery <= 0},
 		"recovering": {"recovering": true, "standby": true},
 	}
 	legalCompletion := map[string]map[string]bool{
@@ -513,11 +518,21 @@ func cbRun(r *rand.Rand, cfg cbConfig, nsteps int, choose cbStepChooser) (cbRunS
 	}
 	prevObserved := "standby"
 	var obsTrips, obsStandbys int64
-	var found *cbMismatch
+	var found, foreign *cbMismatch
+	needResync := false
 	mism := func(cat, msg string) {
-		if found == nil {
-			found = &cbMismatch{cat, msg}
+		mm := &cbMismatch{cat, msg}
+		if found != nil {
+			return
 		}
+		if cat == "hang" || belongs == nil || belongs(mm) {
+			found = mm
+			return
+		}
+		if foreign == nil {
+			foreign = mm
+		}
+		needResync = true
 	}
 	resync := func() {
 		os, ou, err := d.observe()
@@ -619,7 +634,10 @@ func cbRun(r *rand.Rand, cfg cbConfig, nsteps int, choose cbStepChooser) (cbRunS
 			}
 			if !ambiguous && got != want {
 				mism(cat, fmt.Sprintf("arrival #%d at +%v: model state %s (until +%v; ramp allowed=%d denied=%d since +%v of %v), expected %s, breaker answered %s", id, t.Sub(start), preState, m.until.Sub(start), m.a, m.d, m.rcStart.Sub(start), cfg.Recovery, want, got))
-				break
+				if found != nil {
+					break
+				}
+				ambiguous = true // another property's mismatch: observe, re-synchronise, go on
 			}
 			os, ou, err := d.observe()
 			if err != nil {
@@ -727,6 +745,10 @@ func cbRun(r *rand.Rand, cfg cbConfig, nsteps int, choose cbStepChooser) (cbRunS
 				mism("transition", fmt.Sprintf("after completion #%d the breaker is %s, the model %s", id, os, m.state))
 			}
 		}
+		if found == nil && needResync {
+			resync()
+			needResync = false
+		}
 		if found == nil {
 			if got := d.onTripped.n.Load(); got > obsTrips {
 				mism("effects", fmt.Sprintf("on-tripped side effect ran %d times for %d observed transitions into tripped", got, obsTrips))
@@ -746,6 +768,9 @@ func cbRun(r *rand.Rand, cfg cbConfig, nsteps int, choose cbStepChooser) (cbRunS
 		if a, b := d.onTripped.n.Load(), d.onStandby.n.Load(); a != obsTrips || b != obsStandbys {
 			mism("effects", fmt.Sprintf("side effects ran tripped=%d standby=%d for observed transitions tripped=%d standby=%d", a, b, obsTrips, obsStandbys))
 		}
+	}
+	if found == nil {
+		found = foreign
 	}
 	return st, script, found, nil
 }
@@ -781,6 +806,10 @@ func cbChooser(maxInflight int, arriveW, completeW, advanceW int, burst bool) cb
 			}
 		case 4:
 			d = m.cfg.CheckPeriod
+			if m.state == "tripped" && toUntil > 0 && r.IntN(2) == 0 {
+				// a quiet period: the next request arrives long after the fallback period ended
+				d = toUntil + time.Duration(r.Int64N(int64(3*m.cfg.Recovery)+1))
+			}
 		case 5:
 			d = time.Duration(r.Int64N(int64(m.cfg.Recovery)/50 + 1))
 		case 6:
